@@ -41,7 +41,7 @@ fn info(tier: Tier) -> CheckInfo {
         id: "C20",
         level: "model_checking",
         rule: format!(
-            "Tier {}: (a) quiescence - every schedule of C06 part A at three placements per ordered pair of the 13 API calls and every single-fault schedule of C06 part B on every single call is extended by a quiet period longer than the request timeout, then the node's snapshot must show no lookups, puts, parked callers or unexpired in-flight requests and a bounded in-flight table. (b) caps - explicit-state BFS (depth {}) over the real Server with capacities 1, 2, 3 for values, info-hashes and peers per hash (and the asymmetric shapes 1 hash x 3 peers, 3 hashes x 1 peer) against an exact-LRU reference (a use = an accepted put or a served get; a rejected put may refresh the item it was compared with), and one history of 1003 distinct lookup targets with repeats against a real node: the lookup cache never exceeds 1000 entries and evicts in LRU order. (c) stats - every history of depth {} over {{find_node, get_immutable, get_peers, get_signed_peers, put_immutable}} x targets {{own id, t1, t2}} on a real node with 4 endpoints, plus a 3-hour run (12 refreshes) and the cache-rolling history: after every completed lookup the five counters of both routing tables equal the aggregate over the cached lookups in the same snapshot (find_node entries count only towards the general size estimate), never wrap, and Info::dht_size_estimate = sum / max(count,1).",
+            "Tier {}: (a) quiescence - every schedule of C06 part A at every placement (before each network event of the first call, and 1 s after it) per ordered pair of the 13 API calls and every single-fault schedule of C06 part B on every single call is extended by a quiet period longer than the request timeout, then the node's snapshot must show no lookups, puts, parked callers or unexpired in-flight requests and a bounded in-flight table. (b) caps - explicit-state BFS (depth {}) over the real Server with capacities 1, 2, 3 for values, info-hashes and peers per hash (and the asymmetric shapes 1 hash x 3 peers, 3 hashes x 1 peer) against an exact-LRU reference (a use = an accepted put or a served get; a rejected put may refresh the item it was compared with), and one history of 1003 distinct lookup targets with repeats against a real node: the lookup cache never exceeds 1000 entries and evicts in LRU order. (c) stats - every history of depth {} over {{find_node, get_immutable, get_peers, get_signed_peers, put_immutable}} x targets {{own id, t1, t2}} on a real node with 4 endpoints, plus a 3-hour run (12 refreshes) and the cache-rolling history: after every completed lookup the five counters of both routing tables equal the aggregate over the cached lookups in the same snapshot (find_node entries count only towards the general size estimate), never wrap, and Info::dht_size_estimate = sum / max(count,1).",
             tier.name(),
             if tier.is_quick() { 4 } else { 6 },
             depth(tier)
@@ -64,14 +64,18 @@ fn part_a(tier: Tier, mine: &mut dyn FnMut() -> bool, out: &mut Partial) {
             let devs = choices.iter().filter(|c| **c > 0).count();
             out.violation(
                 format!("leak/{k}/after:{}{}{}", c06::API_NAMES[sc.first], sc.second.map(|s| format!("+{}", c06::API_NAMES[s])).unwrap_or_default(), if devs > 0 { "/with-fault" } else { "" }),
-                format!("{} then {:?} (placement {:?}/{} s, choices {choices:?}): after all calls completed and a quiet period: {d}", c06::API_NAMES[sc.first], sc.second.map(|s| c06::API_NAMES[s]), sc.at_event, sc.after / SEC),
+                format!("{} then {:?} (placement {:?}/{} s, choices {choices:?}): after the horizon and a quiet period: {d}", c06::API_NAMES[sc.first], sc.second.map(|s| c06::API_NAMES[s]), sc.at_event, sc.after / SEC),
                 json!({"part": "a", "first": sc.first, "second": sc.second, "at_event": sc.at_event, "after_ms": sc.after / MS, "choices": choices}),
             );
         }
     };
     for first in 0..c06::N_APIS {
+        // every placement of the second call inside the first call's lifetime, and 1 s after it
+        let (_, base) = c06::scenario(Chooser::default_run(), &Script { first, second: None, at_event: None, after: 0, real_peers: false }, false, false);
+        let mut placements: Vec<(Option<u32>, u64)> = (0..=base.events_first).map(|n| (Some(n), 0u64)).collect();
+        placements.push((None, SEC));
         for second in 0..c06::N_APIS {
-            for (at_event, after) in [(Some(0u32), 0u64), (Some(3), 0), (None, SEC)] {
+            for (at_event, after) in placements.clone() {
                 if !mine() {
                     continue;
                 }
